@@ -46,7 +46,15 @@ def generate(seed, tier):
                        'truncated', 'unknown_type', 'trailing_garbage', 'len_over_end', 'len_zero_end', 'magic_end',
                        'len_magic_alphabet', 'len_magic_alphabet', 'double_magic', 'len_near_2_32', 'len_near_2_32',
                        'len_too_short', 'len_too_short', 'len_too_long_by_little'])
-    return {'config': {'tail': tail, 'cuts_seed': rng.getrandbits(32), 'exhaustive_limit': 520}, 'ops': msgs}
+    through_node = rng.random() < 0.3
+    if through_node:
+        # streams that cross the node's 1024-byte reads, and legal messages the handlers do not serve
+        if rng.random() < 0.6:
+            msgs.insert(rng.randrange(len(msgs) + 1), {'kind': 'peers_mid', 'a': rng.randrange(1000), 'n': rng.randrange(0, 4)})
+        if rng.random() < 0.4:
+            msgs.insert(rng.randrange(len(msgs) + 1), {'kind': 'getdata_unserved', 'a': rng.randrange(1000), 'n': 0})
+            msgs.append({'kind': 'getpeers', 'a': 2, 'n': 0})
+    return {'config': {'tail': tail, 'cuts_seed': rng.getrandbits(32), 'exhaustive_limit': 520, 'through_node': through_node}, 'ops': msgs}
 
 
 def ref_frames(stream: bytes, decodable):
@@ -89,6 +97,11 @@ def build_stream(script):
             msg = M.GetPeersMessage()
         elif k == 'getdata':
             msg = M.GetDataMessage(M.DATA_BLOCK, bytes([a % 256]) * 32)
+        elif k == 'getdata_unserved':
+            # legal requests this version does not serve (transaction / header by id)
+            msg = M.GetDataMessage(M.DATA_TRANSACTION if a % 2 else M.DATA_HEADER, bytes([a % 256]) * 32)
+        elif k == 'peers_mid':
+            msg = M.PeersMessage([M.Peer(a + j, IPv6Address('::ffff:10.2.%d.%d' % (j % 250, a % 250)), 2412) for j in range(40 + n * 25)])
         elif k == 'inv':
             msg = M.InventoryMessage([M.InventoryItem(M.DATA_BLOCK, bytes([(a + j) % 256]) * 32) for j in range(n)])
         elif k == 'getblocks':
@@ -169,6 +182,46 @@ class _Recorder:
 
     def handle_message_received(self, header, message):
         self.got.append(header.serialize() + message.serialize())
+
+
+def feed_node(stream, cuts, seed):
+    """The same stream through a whole node: a peer's connection on the simulated network delivers it in segments ending
+    at the given offsets (each segment has arrived and was read before the next is sent); LocalPeer's own read loop, the
+    receiver and the real message handlers run.  Returns the list of dispatched (header, message) encodings."""
+    from seams.net import Kernel, SimNode, Shims
+    from seams.bots import Bot
+    from skepticoin.coinstate import CoinState
+    from skepticoin.networking.remote_peer import ConnectedRemotePeer
+    k = Kernel(seed, {'latency': 'eager', 'frag': 'eager', 'short_writes': 'eager', 'order': 'eager'})
+    sh = Shims(k)
+    sh.install()
+    got = []
+    orig = ConnectedRemotePeer.handle_message_received
+
+    def recording(self, header, message):
+        if self.host == '10.0.1.1' and self.direction == 'INCOMING':       # the connection under test (the node may open others)
+            got.append(header.serialize() + message.serialize())
+        return orig(self, header, message)
+    ConnectedRemotePeer.handle_message_received = recording
+    try:
+        node = SimNode(k, 'N', '10.0.0.1', port=2412, store_path=None)
+        node.boot(CoinState.zero(), peers=[])
+        # the peer only reads: nothing but the stream's own bytes travels towards the node
+        bot = Bot(k, 'bot', '10.0.1.1', {'greet': False, 'silent': True, 'my_port': 0})
+        c = bot.connect(('10.0.0.1', 2412))
+        k.run(k.now + 500)
+        prev = 0
+        for cpos in list(cuts) + [len(stream)]:
+            if cpos > prev and not c.closed:
+                c.send_raw(stream[prev:cpos])
+                prev = cpos
+                k.run(k.now + 300)
+        k.run(k.now + 1000)
+        err = node.loop_error
+    finally:
+        ConnectedRemotePeer.handle_message_received = orig
+        sh.uninstall()
+    return got, err
 
 
 def feed(stream, cuts):
@@ -282,6 +335,47 @@ def execute(script):
                     break
         res.bump('exhaustive_cuts', cnt)
         res.bump('streams_cut_exhaustively')
+    if ok and script['config'].get('through_node'):
+        # the same statement one level up: through LocalPeer's read loop and the real handlers.  What is dispatched when the
+        # stream arrives in one piece is the yardstick (handlers may end the connection; that too depends on bytes only)
+        seed = script.get('seed', 0)
+        base_got, err = feed_node(stream, [], seed)
+        res.bump('node_level_streams')
+        if err:
+            res.violate(PROP, 'C11/exception-left-event-loop', '%s: %s' % err[:2])
+            ok = False
+        elif base_got != want[:len(base_got)]:
+            res.violate(PROP, 'C11/messages-differ-from-reference', 'through the node, unfragmented: the dispatched messages are not a prefix of '
+                        'the reference split (%d dispatched, reference %d)' % (len(base_got), len(want)))
+            ok = False
+        cutsets = []
+        for m in range(1024, n, 1024):
+            cutsets.append((m,))                         # a segment that exactly fills the node's reads
+        for m in range(1024, n, 1024):
+            for j in (1, 5, 246, 1023):
+                if m + j < n:
+                    cutsets.append((m, m + j))
+                if m - j > 0:
+                    cutsets.append((m - j, m))
+        for _ in range(12):
+            kk = rng.choice([1, 2, 3, 5])
+            cutsets.append(tuple(sorted({rng.randrange(1, n) for _ in range(kk)})) if n > 1 else ())
+        cutsets.append(tuple(range(1, min(n, 40))))      # the first bytes one by one
+        for cs_ in cutsets[:40]:
+            if not ok:
+                break
+            got_n, err = feed_node(stream, cs_, seed)
+            res.bump('node_level_cuts')
+            if any(x % 1024 == 0 for x in cs_):
+                res.bump('probe:segment_exactly_fills_a_read')
+            if err:
+                res.violate(PROP, 'C11/exception-left-event-loop', 'cuts %s: %s: %s' % (list(cs_)[:6], err[0], err[1]))
+                ok = False
+            elif got_n != base_got:
+                res.violate(PROP, 'C11/messages-depend-on-fragmentation',
+                            'through the node (read loop + real handlers), cuts %s: %d messages dispatched, %d when the stream arrives in '
+                            'one piece' % (list(cs_)[:6], len(got_n), len(base_got)))
+                ok = False
     res.bump('streams')
     if refuse_after is not None:
         res.bump('probe:stream_with_refusal')
